@@ -157,6 +157,10 @@ def oracle_trace(ops, obs, pid='C03', kind=None):
         parts = ob.split()
         first = parts[0] if parts else ''
         o = tk[0]
+        if '+init-ran' in parts:
+            P.append((pid + ':constructor-run-during-resolution',
+                      'op %d %r: the storage called the class (ran __init__) while resolving; the throw-away '
+                      'instance must come from klass.__new__(klass, *newargs)' % (i, op)))
         for x in parts:
             if x.startswith('+acquired:'):
                 t2 = int(x.split(':')[1])
